@@ -287,6 +287,7 @@ def run(ctx):
 
 # ----------------------------------------------------------------------------------------------------------------------
     check_filter_discipline(ctx)
+    check_filter_twins(ctx)
 
 
 def _is_back(e) -> bool | None:
@@ -602,3 +603,69 @@ def check_filter_discipline(ctx):
                               sample={'function': fi.key, 'yield': norm(v), 'checked_here': sorted(f[1] for f in st if f[0] == 'ok')})
         if n < 5:
             raise AnalysisError(f'walk(): only {n} direct yields found')
+
+
+# ---- R14.4 / R14.5 -----------------------------------------------------------------------------------------------------
+
+def check_filter_twins(ctx):
+    """R14.4: the `all` filter exists twice - `_check_all_param(fst_, all)` (used by next / prev / step) and `_all_param_func(all)` (closures
+    used by walk).  Arm by arm (paired by their guard on `all`) both must consult the same names: otherwise walk() and the stepping API
+    disagree on which nodes exist.
+    R14.5: walk() builds its work stack from copies; it never mutates the caller's `asts` list (aliasing the parameter and popping from
+    it empties a list the caller owns - possibly a live field list)."""
+    from ..model import walk_no_nested, call_name
+    ctx.rule('R14.4', '_check_all_param and _all_param_func consult the same names in corresponding arms of the `all` filter', 3)
+    ctx.rule('R14.5', 'walk() never mutates its `asts` argument (work stack built from copies)', 1)
+    a_ = ctx.repo.funcs('fst_traverse', '_check_all_param')
+    b_ = ctx.repo.funcs('fst_traverse', '_all_param_func')
+    if not a_ or not b_:
+        raise AnalysisError('filter twins not found')
+
+    def arms(fn):
+        out = {}
+        for st in fn.body:
+            if isinstance(st, ast.If) and len(st.body) == 1 and isinstance(st.body[0], ast.Return):
+                v = st.body[0].value
+                if isinstance(v, ast.Lambda):
+                    v = v.body
+                out[norm(st.test)] = v
+        return out
+
+    def consulted(e):
+        names = set()
+        for x in ast.walk(e):
+            if isinstance(x, ast.Attribute):
+                names.add('.' + x.attr)
+            elif isinstance(x, ast.Name) and x.id not in ('fst_', 'a', 'bool', 'True', 'False'):
+                names.add(x.id)
+            elif isinstance(x, ast.Constant) and not isinstance(x.value, bool):
+                names.add(repr(x.value))
+        return names
+    A, B = arms(a_[0].node), arms(b_[0].node)
+    common = set(A) & set(B)
+    if len(common) < 3:
+        raise AnalysisError('filter twins: fewer than 3 corresponding arms found')
+    for g in sorted(common):
+        ca, cb = consulted(A[g]), consulted(B[g])
+        ctx.check('R14.4', ca == cb, 'fst_traverse', '_all_param_func', f'arm `{g}`',
+                  f'the two encodings of the filter differ for `{g}`: only one of them consults {sorted(ca ^ cb)}; walk() and next()/prev()/step_*() '
+                  f'then disagree on which nodes are visited', b_[0].lineno, sample={'arm': g, 'names': sorted(ca)})
+    for fi in ctx.repo.funcs('fst_traverse', 'walk'):
+        if 'asts' not in fi.params():
+            raise AnalysisError('walk(): parameter `asts` vanished')
+        alias = {'asts'}
+        changed = True
+        while changed:
+            changed = False
+            for x in walk_no_nested(fi.node):
+                if isinstance(x, (ast.Assign, ast.NamedExpr)):
+                    t = x.targets[0] if isinstance(x, ast.Assign) else x.target
+                    vals = [x.value.body, x.value.orelse] if isinstance(x.value, ast.IfExp) else [x.value]
+                    if isinstance(t, ast.Name) and any(isinstance(v, ast.Name) and v.id in alias for v in vals) and t.id not in alias:
+                        alias.add(t.id)
+                        changed = True
+        muts = [x for x in walk_no_nested(fi.node) if isinstance(x, ast.Call) and isinstance(x.func, ast.Attribute) and isinstance(x.func.value, ast.Name)
+                and x.func.value.id in alias and x.func.attr in ('pop', 'append', 'extend', 'insert', 'reverse', 'clear', 'remove', 'sort')]
+        ctx.check('R14.5', not muts, fi.module, fi.qualname, f'aliases of asts: {sorted(alias)}',
+                  f'`{norm(muts[0], 40) if muts else ""}` operates on the caller\'s `asts` list itself: the walk consumes it (a second walk yields nothing; '
+                  f'a live field list loses its statements)', muts[0].lineno if muts else fi.lineno, sample={'aliases': sorted(alias)})
